@@ -88,6 +88,12 @@ func (g *StepRig) directRun(c *StepCase) (post z80.States, halt bool, pan interf
 		g.dTouched[g.Direct] = append(g.dTouched[g.Direct], a)
 	}
 	cpu := z80.CPU{States: c.Pre, Memory: mem, HALT: c.PreHALT}
+	if c.PendingRefused {
+		cpu.Interrupt = &z80.Interrupt{Type: z80.IMType, Data: []uint8{0xff}}
+		if c.Pre.IM == 2 {
+			cpu.Interrupt.Data = []uint8{0x10}
+		}
+	}
 	if !c.NoHandlers {
 		var drc mon.RetCounter
 		cpu.RETNHandler, cpu.RETIHandler = drc.Handlers()
@@ -129,7 +135,6 @@ func (g *StepRig) directCompare(out *StepOutcome, post z80.States, halt bool, pa
 
 var _ = fmt.Sprint
 
-
 // aspects that can disagree
 const (
 	BadState   = 1 << iota // registers / flags / IFF / IM / PC / SP / halted
@@ -145,11 +150,12 @@ const (
 
 // StepCase is one monitored Step.
 type StepCase struct {
-	Pre     z80.States
-	Bytes   []uint8 // placed at PC (wrapping)
-	IOSeed  uint64
-	PreHALT bool // CPU.HALT already true before the Step (sticky flag; Step must behave the same)
+	Pre        z80.States
+	Bytes      []uint8 // placed at PC (wrapping)
+	IOSeed     uint64
+	PreHALT    bool // CPU.HALT already true before the Step (sticky flag; Step must behave the same)
 	NoHandlers bool // no RETN/RETI handler registered
+	PendingRefused bool // a maskable request is pending with IFF1 clear: it is refused, stays pending, and the instruction runs as usual
 	MoveCPU    bool // chain mode: continue on a by-value copy of the CPU struct; the old struct is scribbled over
 }
 
@@ -209,6 +215,18 @@ func (g *StepRig) Run(c *StepCase) (out StepOutcome) {
 		g.chainLive = g.Chained
 	}
 
+	var pendReq *z80.Interrupt
+	if c.PendingRefused {
+		c.Pre.IFF1 = false
+		pendReq = &z80.Interrupt{Type: z80.IMType, Data: []uint8{0xff}}
+		if c.Pre.IM == 2 {
+			pendReq.Data = []uint8{0x10}
+		}
+		g.CPU.States = c.Pre
+		g.CPU.Interrupt = pendReq
+	} else {
+		g.CPU.Interrupt = nil
+	}
 	var dPost z80.States
 	var dHalt bool
 	var dPan interface{}
@@ -237,6 +255,10 @@ func (g *StepRig) Run(c *StepCase) (out StepOutcome) {
 	}()
 	out.Post = g.CPU.States
 	out.PostHALT = g.CPU.HALT
+	if c.PendingRefused && g.CPU.Interrupt != pendReq && out.Bad&BadPanic == 0 {
+		out.Bad |= BadState // a refused request must stay pending untouched
+	}
+	g.CPU.Interrupt = nil
 	if g.Direct != 0 {
 		g.directCompare(&out, dPost, dHalt, dPan, mark)
 	}
@@ -327,26 +349,26 @@ func (g *StepRig) Run(c *StepCase) (out StepOutcome) {
 // Witness builds a replayable description of a disagreement.
 func (g *StepRig) Witness(enc Encoding, c *StepCase, o *StepOutcome) map[string]interface{} {
 	w := map[string]interface{}{
-		"encoding":  enc.String(),
-		"table":     enc.Table,
-		"op":        enc.Op,
-		"bytes":     HexBytes(c.Bytes),
-		"pre":       DumpState(&c.Pre, false),
-		"mem_seed":  g.fillSeed,
-		"io_seed":   c.IOSeed,
-		"post_emu":  DumpState(&o.Post, o.PostHALT),
-		"post_ref":  DumpState(&o.Exp, o.Info.Halt),
-		"bad":       BadString(o.Bad),
-		"emu_bus":   DumpAccesses(g.EmuMem.Log),
-		"ref_bus":   DumpAccesses(g.RefMem.Log),
-		"emu_ports": DumpAccesses(g.EmuIO.Log),
-		"ref_ports": DumpAccesses(g.RefIO.Log),
-		"f_mask":    h8(o.Info.FMask),
+		"encoding":           enc.String(),
+		"table":              enc.Table,
+		"op":                 enc.Op,
+		"bytes":              HexBytes(c.Bytes),
+		"pre":                DumpState(&c.Pre, false),
+		"mem_seed":           g.fillSeed,
+		"io_seed":            c.IOSeed,
+		"post_emu":           DumpState(&o.Post, o.PostHALT),
+		"post_ref":           DumpState(&o.Exp, o.Info.Halt),
+		"bad":                BadString(o.Bad),
+		"emu_bus":            DumpAccesses(g.EmuMem.Log),
+		"ref_bus":            DumpAccesses(g.RefMem.Log),
+		"emu_ports":          DumpAccesses(g.EmuIO.Log),
+		"ref_ports":          DumpAccesses(g.RefIO.Log),
+		"f_mask":             h8(o.Info.FMask),
 		"direct_memory_note": g.DirectNote,
-		"pre_halt":    c.PreHALT,
-		"no_handlers": c.NoHandlers,
-		"direct":      g.lastDirect,
-		"handlers":  fmt.Sprintf("emu RETN=%d RETI=%d ref RETN=%d RETI=%d", g.RC.RETN, g.RC.RETI, g.Ref.RETN, g.Ref.RETI),
+		"pre_halt":           c.PreHALT,
+		"no_handlers":        c.NoHandlers,
+		"direct":             g.lastDirect,
+		"handlers":           fmt.Sprintf("emu RETN=%d RETI=%d ref RETN=%d RETI=%d", g.RC.RETN, g.RC.RETI, g.Ref.RETN, g.Ref.RETI),
 	}
 	if o.Info.HasAlt {
 		w["alt_f"] = h8(o.Info.AltF)
